@@ -260,6 +260,22 @@ class AsciiMap:
         self._updateSlotSizeFromData()
         self._makeOffsets()
 
+        # The reader infers the size of the map from the text. If trimming the placeholders changed
+        # what it infers, the text would read back shifted: never draw such a map.
+        readBack = self.__class__()
+        readBack.readAscii(str(self))
+        expected = {
+            ij: str(label).replace(" ", "")
+            for ij, label in self.asciiLabelByIndices.items()
+            if label != PLACEHOLDER
+        }
+        actual = {ij: label for ij, label in readBack.items() if label != PLACEHOLDER}
+        if actual != expected:
+            raise ValueError(
+                "Cannot write asciimap: the map drawn from the data would not read back to the "
+                "same locations (typically cells of the outer ring are missing)."
+            )
+
     @staticmethod
     def _removeTrailingPlaceholders(line):
         newLine = []
